@@ -64,7 +64,7 @@ func (d Driver) Run(c *core.Ctx) {
 		return
 	}
 	// stage (a)
-	nh := int64(c.N(50, 850))
+	nh := int64(c.N(50, 600))
 	for i := int64(0); i < nh; i++ {
 		if !c.Want(i) {
 			continue
@@ -72,7 +72,7 @@ func (d Driver) Run(c *core.Ctx) {
 		runHistory(c, i, c.RNG(i))
 	}
 	// stage (b)
-	np := int64(c.N(1500, 6000))
+	np := int64(c.N(1500, 5000))
 	var pool *vpool
 	for i := int64(0); i < np; i++ {
 		if !c.Want(purityBase + i) {
@@ -94,7 +94,7 @@ func runRaceBatch(c *core.Ctx, j int) {
 	G := []int{2, 4, 8, 16}[j%4]
 	runs, n := 2, 1500
 	if !c.Quick() {
-		runs, n = 6, 8000
+		runs, n = 4, 8000
 	}
 	for run := 0; run < runs; run++ {
 		idx := scheduleBase + int64(run)
